@@ -30,8 +30,14 @@ def _conn(pid, what):
               "Every observable event and every critical section (verif hook) is logged and judged by the TLA+ monitor ConnMon (clauses " + what + "), evaluated by TLC over "
               "the logs; the strict trace spec ConnTrace must explain every recorded trace (drift otherwise)."
               + (" In addition every critical section of every connection created by the repository's own tests (tracer hook) is judged by ConnSnap.tla"
-                 + (" (thorough tier)." if pid == "C01" else ".") if pid in ("C01", "C05") else "")),
-        design_ref="DESIGN.md section 6 " + pid + ", section 5.1",
+                 + (" (thorough tier)." if pid == "C01" else ".") if pid in ("C01", "C05") else "")
+              + (" The property quantifies over every transport: the streamable-HTTP server transport is covered by scenarios generated from StreamSrv.tla (gated races, a transition-cover "
+                 "sample of the seam-level TLC graph, seeded random scripts) run on a real StreamableHTTPHandler and judged by the " + pid + " clauses of StreamSrvMon "
+                 + {"C02": "(HttpCallAnswered, HttpAnsweredAtMostOnce)", "C03": "(SameStreamOrder)", "C04": "(CancelNoticeReachesPeer)"}[pid] + "."
+                 if pid in ("C02", "C03", "C04") else "")
+              + (" Persistent senders of notifications are modelled apart in ConnNotify.tla (TLC: Close terminates under fairness with the code's admission rule, and must NOT terminate with the "
+                 "'admit while not idle' rule - a sensitivity witness) and run as notifyloop scripts over a slow scripted transport." if pid == "C05" else "")),
+        design_ref="DESIGN.md section 6 " + pid + ", section 5.1, section 13",
         note="Trusted: TLC; the scripted transport and scripted handlers of the harness; testing/synctest quiescence as the notion of 'step finished'; scheduling is controlled at environment-action and critical-section level only (not inside a critical section, not between non-critical-section steps).",
         technique="TLA+ spec + TLC exhaustive; TLC-generated behaviours replayed on real sessions under synctest (environment-action and lock-step critical-section level); TLA+ monitor and strict trace validation of recorded traces",
     )
@@ -39,13 +45,13 @@ def _conn(pid, what):
 CHECKS.update({
     "C01": _conn("C01", "C01.CompleteOnce/OwnResponse/ErrorHasCause/ResponseCompletes/FailedWriteCompletesCall/BadParamsCallFails/NotBlockedAfterTermination/FailFastAfterTermination"),
     "C02": _conn("C02", "C02.AnsweredAtMostOnce/NoReplyToNotification/AnsweredWhenUsable/AnsweredBeforeTransportClosed/DupInflightIdAnswered"),
-    "C03": _conn("C03", "C03.DispatchFIFO/NotificationCompletesFirst/NotifyReturnsAfterHandOff"),
+    "C03": _conn("C03", "C03.DispatchFIFO/NotificationCompletesFirst/NotifyReturnsAfterHandOff, incl. handlers that call the peer with their own context"),
     "C04": _conn("C04", "C04.PromptReturn/CancelAnnounced/OnlyMatchingSent/OnlyMatchingCancelled/MatchingHandlerCancelled"),
     "C05": _conn("C05", "C05.TransportClosedOnlyAfterHandlers/AnsweredBeforeTransportClosed/NoDispatchAfterClose/CloseReturns/WaitReturns/Removed/NoLeak/NoPanic and, on real client/server pairs scripted by PairEnv.tla, C05.PairCloseReturns/PairWaitReturns/PairRemoved/PairNoLeak, and on a 2026-07-28 pair with listen streams, failing writes and vanishing peers scripted by PairSub.tla, C05.PairSubCloseReturns/WaitReturns/Removed/CallsComplete/NoDispatchAfterClose/HandlerNotCancelled/TransportClosedAfterHandlers/NoLeak(AfterClose)/NoPanic"),
     "C07": dict(
         engine="Negotiate", category="model_checking",
         text=("NegotiateDefs.tla states C07 as five declarative clauses over (configuration, outcome) plus a check-by-check transcription of the client and "
-              "server negotiation code. TLC enumerates the complete 1330-cell matrix (requested version x transport incl. stateful without session ids x advertised subset x discover availability x a prior connection through another endpoint of the same Server) "
+              "server negotiation code. TLC enumerates the complete 1970-cell matrix (requested version x transport incl. stateful without session ids x advertised subset x discover availability x a prior connection through another endpoint of the same Server x whether the client's first request is already in flight while Server.Connect is still asking the transport for its versions) "
               "and evaluates the design on every cell; every cell is executed on a real Client/Server pair (in-memory, io pipes, SSE, streamable stateful/stateless "
               "through an in-process RoundTripper under synctest) with ListTools and CallTool right after Connect; the TLA+ monitor NegotiateMon judges each outcome."),
         design_ref="DESIGN.md section 6 C07, 5.3",
